@@ -1,6 +1,7 @@
 package main
 
 import (
+	"strings"
 	"flag"
 	"fmt"
 	"os"
@@ -125,6 +126,16 @@ func dumpFacts(c *Ctx, what string) {
 		}
 		for _, f := range sortedFuncs(c.RAPI) {
 			fmt.Println("RAPI", fname(f))
+		}
+	case "sigs":
+		for _, f := range c.Funcs {
+			if f.Parent() == nil && f.Synthetic == "" && len(f.Params) > 2 {
+				var ts []string
+				for _, p := range f.Params {
+					ts = append(ts, p.Type().String())
+				}
+				fmt.Println(fname(f) + "\t" + strings.Join(ts, "|"))
+			}
 		}
 	case "funcs":
 		for _, f := range c.Funcs {
